@@ -773,6 +773,7 @@ func init() {
 			{name: "fcx_small", enum: enumFcxSmall, exec: execFcx, monitors: []Monitor{monFcx("C05")}, labels: labelsFcx, nontrivial: ntFcx, quick: 1, thorough: 1},
 			{name: "fcx_sampled", gen: genFcxSampled, exec: execFcx, monitors: []Monitor{monFcx("C05")}, labels: labelsFcx, nontrivial: ntFcx, quick: 3000, thorough: 100000},
 			{name: "fcx_receiver", gen: genFcxReceiver, exec: execFcx, monitors: []Monitor{monFcx("C05")}, labels: labelsFcx, nontrivial: ntFcx, quick: 2000, thorough: 60000},
+			{name: "fcx_parallel", gen: genFcxPar, exec: execFcxPar, monitors: []Monitor{monFcxPar}, labels: labelsFcxPar, nontrivial: ntFcxPar, quick: 12, thorough: 400, shards: 4, procs: 8},
 		},
 		rule: "unit-level controlled scheduler over flow_control.go (verif constructors + yield points between load, wait, CAS, sendFunc and inside updateWindow): sender goroutine S, updater goroutine U and the atomic action cancel are released one at a time; oracle = terminal-state rule (a blocked sender only with all credit consumed and data remaining; all sent when credit suffices; context error after cancel) and safety at every sendFunc call; small family enumerated exhaustively, larger windows/messages sampled by rapid; receivers are checked against a queue+window model with one blocked reader; plus system-level credit accounting at drained quiescent points of generated streaming workloads; non-trivial = an update step ran while the sender sat between its load and its wait/CAS, or the schedule ended with the sender legitimately waiting for credit"})
 	addParts("C06", part{name: "fcx_sampled", gen: genFcxSampled, exec: execFcx, monitors: []Monitor{monFcx("C06")}, labels: labelsFcx, nontrivial: ntFcx, quick: 1500, thorough: 50000},
